@@ -80,7 +80,7 @@ class FakeMolecule(FakeGraph):
 
 
 def _undirected(edges):
-    return sorted({tuple(sorted(e[:2])) for e in edges})
+    return sorted({tuple(sorted(e[:2], key=repr)) for e in edges}, key=repr)
 
 
 def _with_data(edges):
@@ -130,6 +130,9 @@ CONTRACTS = {
         (([None, 1],), {}, False, 'a first element of None is an element, not "empty"'),
         ((['a', 'a'],), {}, True, ''),
         (([0, False],), {}, True, 'compares with ==, like the callers expect'),
+        (([interp.Vec((1.0, 2.0, 3.0)), interp.Vec((1.0, 2.0, 3.0))],), {}, True, 'positions (arrays): equal'),
+        (([interp.Vec((1.0, 2.0, 3.0)), interp.Vec((1.0, 5.0, 6.0))],), {}, False, 'arrays that share one component are not equal (atoms of a planar residue share z)'),
+        (([interp.Vec((1.0, 2.0, 3.0)), interp.Vec((1.0, 2.0, 3.0)), interp.Vec((1.0, 2.0, 4.0))],), {}, False, 'every array counts'),
     ],
     ('vermouth/utils.py', 'format_atom_string'): [
         (({'chain': 'A', 'resname': 'GLY', 'resid': 5, 'atomname': 'CA'},), {}, ANY_TEXT, 'a full node'),
@@ -140,6 +143,7 @@ CONTRACTS = {
     ],
     ('vermouth/selectors.py', 'select_backbone'): [
         (({'atomname': 'BB'},), {}, True, ''), (({'atomname': 'SC1'},), {}, False, ''), (({},), {}, False, 'no name'),
+        (({'atomname': 'B'},), {}, False, 'the whole name counts: a bead called B is not the backbone bead BB'), (({'atomname': ''},), {}, False, 'an empty name'),
         (({'atomname': 'CA'}, 'CA'), {}, True, 'explicit backbone name'), (({'atomname': 'BB'}, 'CA'), {}, False, ''),
     ],
     ('vermouth/selectors.py', 'proto_select_attribute_in'): [
@@ -150,6 +154,7 @@ CONTRACTS = {
         (({},), {}, False, 'docstring: key not defined'), (({'position': None},), {}, False, 'docstring: None'),
         (({'position': (0.0, 0.0, 0.0)},), {}, True, 'the origin is a position'), (({'position': (1.0, NAN, 0.0)},), {}, False, 'docstring: not finite'),
         (({'position': (1.0, INF, 0.0)},), {}, False, 'docstring: not finite'), (({'position': (1.5, -2.0, 3.0)},), {}, True, ''),
+        (({'position': (NAN, NAN, NAN)},), {}, False, ''), (({'position': (NAN, 2.0, 3.0)},), {}, False, 'one undefined coordinate is enough'),
     ],
     ('vermouth/selectors.py', 'filter_minimal'): [
         ((FakeGraph({1: {'a': 1}, 2: {'a': 0}, 3: {'a': 1}}), _lam('lambda atom: atom["a"] == 1')), {}, [1, 3], 'keys of the selected atoms, in node order'),
@@ -184,6 +189,8 @@ CONTRACTS = {
         ((CHAIN4, [3, 4], [0, 1, 2]), {}, [(0, 3), (2, 3)], 'a node key 0 is a key; an isolated node has no edge', _undirected),
         ((CHAIN4, [2], [1, 3, 4]), {}, [(1, 2), (2, 3)], 'both neighbours', _undirected),
         ((CHAIN4, [], [1, 2]), {}, [], 'empty bunch'),
+        ((FakeMolecule({1: {}, 'OXT': {}, 2: {}}, {1: ['OXT', 2], 'OXT': [1], 2: [1]}), [1, 'OXT', 2], [1, 'OXT', 2]), {}, [(1, 2), (1, 'OXT')],
+         'node keys need not be comparable with each other (numbered atoms next to atoms added by name)', _undirected),
         ((CHAIN4, [1], [2]), {'data': True}, [((1, 2), (('distance', 0.5),))], 'with the edge attributes on request', _with_data),
     ],
     ('vermouth/processors/do_mapping.py', 'ptm_resname_match'): [
@@ -339,6 +346,8 @@ def helper_contracts(ck, rule='HELPER-contract'):
         for case in CONTRACTS[key]:
             args, kwargs, want, reason = case[:4]
             post = case[4] if len(case) > 4 else None
+            if post is _undirected:
+                want = _undirected(want)
             n += 1
             try:
                 got = f(*[_value(a) for a in args], **{k: _value(v) for k, v in kwargs.items()})
